@@ -1,4 +1,5 @@
 import GqlVerif.Base.Json
+import GqlVerif.Misc.SubFilter
 import GqlVerif.Proto.Subs
 namespace GqlVerif.Driver
 open GqlVerif GqlVerif.Subs
@@ -149,5 +150,38 @@ def c12run (args : Json) : Json :=
         ("pendClose", .ofNat s.pendClose.length), ("pendCancel", .ofNat s.pendCancel.length),
         ("subInc", .ofNat s.subInc), ("subDec", .ofNat s.subDec), ("trigInc", .ofNat s.trigInc), ("trigDec", .ofNat s.trigDec),
         ("shutdown", .bool s.shutdown)]
+
+end GqlVerif.Driver
+
+namespace GqlVerif.Driver
+open GqlVerif GqlVerif.SubFilter
+
+def kvsOf (j : Json) : List (String × Json) := match j with | .obj kvs => kvs | _ => []
+
+/-- a listed value of an IN condition: static JSON text, a variable, or a static prefix followed by a (string) variable -/
+def c12FValue (vars : Json) (j : Json) : FV :=
+  let name := j.strD "variable"
+  let pre := j.strD "prefix"
+  if name != "" && pre != "" then
+    match vars.get? name with
+    | some (.str s) => .static (.str (pre ++ s))
+    | _ => .static .null
+  else if name != "" then .var name
+  else match Json.parse (j.strD "static") with
+    | some v => .static v
+    | none => .static .null
+
+partial def c12Filter (vars : Json) (j : Json) : Filter :=
+  match j.strD "kind" with
+  | "and" => .and ((j.arrD "children").map (c12Filter vars))
+  | "or" => .or ((j.arrD "children").map (c12Filter vars))
+  | "not" => .not (match j.arrD "children" with | c :: _ => c12Filter vars c | [] => .and [])
+  | _ => .isIn (j.strD "field") ((j.arrD "values").map (c12FValue vars))
+
+/-- `c12.filter {filter, event, variables}` → `{passes}` (Misc.SubFilter.passes) -/
+def c12filter (args : Json) : Json :=
+  let vars := args.getD "variables"
+  let event := (args.getD "event").getD "data"
+  .obj [("passes", .bool (passes (kvsOf event) (kvsOf vars) (c12Filter vars (args.getD "filter"))))]
 
 end GqlVerif.Driver
